@@ -1398,9 +1398,12 @@ impl StoryState {
                 .load_json(variables_state_obj.as_object().ok_or_else(|| {
                     StoryError::BadJson("Invalid variables state object".to_string())
                 })?)?;
-            self.variables_state
-                .set_callstack(self.current_flow.callstack.clone());
         }
+
+        // The current flow was replaced above: temporary variables must be
+        // looked up in its call stack, whatever else the save contains.
+        self.variables_state
+            .set_callstack(self.current_flow.callstack.clone());
 
         if let Some(eval_stack_obj) = j_object.get("evalStack") {
             self.evaluation_stack =
